@@ -105,7 +105,7 @@ structure InvOK (cfg : Table) (env : Env) (P : St → Prop) : Prop where
     P (setOnce st opt v)
   appendTo : ∀ st lopt opt k items, cfg.handler lopt = some (opt, k) → k.isAppend = true → P st →
     P (appendTo st opt items)
-  expandOpts : ∀ st toks o, P st → expandOpts toks env.environ cfg.percentExpand st.opts = .ok o →
+  expandOpts : ∀ st toks o, P st → expandOpts env.inherited toks env.environ cfg.percentExpand st.opts = .ok o →
     P { st with opts := o }
 
 theorem runHandler_inv {cfg : Table} {env : Env} {P : St → Prop} (hP : InvOK cfg env P)
@@ -232,7 +232,7 @@ theorem epilogue_inv {cfg : Table} {env : Env} {P : St → Prop} (hP : InvOK cfg
   | error e => simp [ht] at h
   | ok nt =>
     simp only [ht] at h
-    cases he : expandOpts (nt ++ st.tokens) env.environ cfg.percentExpand st.opts with
+    cases he : expandOpts env.inherited (nt ++ st.tokens) env.environ cfg.percentExpand st.opts with
     | error e => simp [he] at h
     | ok o =>
       simp [he] at h
@@ -314,8 +314,8 @@ def FirstWins (cfg : Table) (st : St) : Prop :=
   ∀ o, o ∉ cfg.percentExpand → (∀ e ∈ st.log, e.opt = o → e.append = false) →
     optGet st.opts o = firstLogged st.log o
 
-theorem expandOpts_get_other (toks : Tokens) (environ : List (Bytes × Bytes)) (o : Bytes) :
-    ∀ (ks : List Bytes) (opts opts' : Opts), o ∉ ks → expandOpts toks environ ks opts = .ok opts' →
+theorem expandOpts_get_other (inh : Opts) (toks : Tokens) (environ : List (Bytes × Bytes)) (o : Bytes) :
+    ∀ (ks : List Bytes) (opts opts' : Opts), o ∉ ks → expandOpts inh toks environ ks opts = .ok opts' →
       optGet opts' o = optGet opts o := by
   intro ks
   induction ks with
@@ -329,7 +329,7 @@ theorem expandOpts_get_other (toks : Tokens) (environ : List (Bytes × Bytes)) (
     | none => simp only [hg] at h; exact ih _ _ hks h
     | some v =>
       simp only [hg] at h
-      cases hv : expandValue toks environ v with
+      cases hv : expandValue (optGet inh k) toks environ v with
       | error e => simp [hv] at h
       | ok v' =>
         simp only [hv] at h
@@ -386,7 +386,7 @@ theorem firstWins_ok (cfg : Table) (env : Env) : InvOK cfg env (FirstWins cfg) w
       cases firstLogged st.log o <;> simp [ho]
   expandOpts := by
     intro st toks o' h he o hpe hsc
-    rw [expandOpts_get_other _ _ o _ _ _ hpe he]
+    rw [expandOpts_get_other _ _ _ o _ _ _ hpe he]
     exact h o hpe hsc
 
 /-- items of an append entry -/
@@ -441,7 +441,7 @@ theorem accumulates_ok (cfg : Table) (env : Env) : InvOK cfg env (Accumulates cf
       simp [List.filter, ho]
   expandOpts := by
     intro st toks o' h he o hpe hsc
-    rw [expandOpts_get_other _ _ o _ _ _ hpe he]
+    rw [expandOpts_get_other _ _ _ o _ _ _ hpe he]
     exact h o hpe hsc
 
 /-! ### initial state -/
